@@ -6,6 +6,7 @@
                     {t, f, nil} are `#` tokens of the text parser with the same meaning
   R-MACRO-SPACING   Alone ends a punctuation symbol, Joint continues it
   R-MACRO-DOT       inside a list only a `.` standing Alone is consumed as the dotted-tail marker
+  R-MACRO-EXTENT    each documented token form is consumed exactly (16 forms x 11 kinds of following token)
 Necessary: a character the macro turns into a symbol but the text parser rejects makes the two disagree on
 that one-token S-expression.  Everything else (Spacing-driven joining, dotted-tail flattening, literal
 typing, unquote) relates two parsers over a language and is not decided.
@@ -273,6 +274,116 @@ def list_dot(ctx, mac, lexpr):
     r.floor("list-dot-cases", n)
 
 
+def form_extent(ctx, mac):
+    """Each documented token form is consumed exactly: the macro's element parser, started on a token vector
+    [form..., follower...], returns Ok with the cursor right behind the form - it neither leaves one of the form's
+    tokens behind nor glues a following token on (`(#:size . large)`, `(#:from - to)`, `(-1 0 1)` keep their
+    elements apart).  Driver: the macro's own vector parser (a loop of `parse` calls); the first `parse` runs as
+    MIR over a structural token vector, the cursor is read when the loop comes round to the second."""
+    r = ctx.rule("R-MACRO-EXTENT", "the macro's element parser consumes exactly the tokens of each documented form "
+                                   "(identifier, literal, group, #t/#f/#nil, #\"..\", #(..), #:name, #:\"..\", :name, "
+                                   ":\"..\", -literal, unquote, punctuation symbol), whatever token follows")
+    pv = mac.fn("parser::parse_vector")
+    pf = mac.fn("parser::Parser::parse")
+    sp = mac.ext_adts.get("proc_macro2::Spacing")
+    tt = mac.ext_adts.get("proc_macro2::TokenTree")
+    pa = mac.adts.get("parser::Parser")
+    if pv is None or pf is None or not sp or not tt or not pa:
+        r.anchor_missing("parser::parse_vector / Parser::parse / parser::Parser / proc_macro2 token types")
+        return
+    vidx = {v["name"]: v["idx"] for v in tt["variants"]}
+    pfields = pa["variants"][0]["fields"]
+    vec_fields = [i for i, f in enumerate(pfields) if f["ty"].startswith("std::vec::Vec<proc_macro2::TokenTree")]
+    idx_fields = [i for i, f in enumerate(pfields) if f["ty"] == "usize"]
+    if len(vec_fields) != 1 or len(idx_fields) != 1 or len(pfields) != 2:
+        r.anchor_missing("parser::Parser { tokens: Vec<TokenTree>, index: usize } (fields %s)" % [f["ty"] for f in pfields])
+        return
+    spv = {v["name"]: Adt("proc_macro2::Spacing", v["idx"], [], v["name"]) for v in sp["variants"]}
+
+    def P(ch, s="Alone"):
+        return Adt("proc_macro2::TokenTree", vidx["Punct"], [Adt("proc_macro2::Punct", 0, [ord(ch), spv[s]])], "Punct")
+
+    def T(kind):
+        return Adt("proc_macro2::TokenTree", vidx[kind], [sim.Opq(kind.lower())], kind)
+
+    forms = [
+        ("an identifier", [T("Ident")]), ("a literal", [T("Literal")]), ("a list", [T("Group")]),
+        ("#ident", [P("#"), T("Ident")]), ('#"symbol"', [P("#"), T("Literal")]), ("#(vector)", [P("#"), T("Group")]),
+        ("#:name", [P("#", "Joint"), P(":"), T("Ident")]), ('#:"name"', [P("#", "Joint"), P(":"), T("Literal")]),
+        (":name", [P(":"), T("Ident")]), (':"name"', [P(":"), T("Literal")]),
+        ("a negative literal", [P("-"), T("Literal")]),
+        ("an unquoted identifier", [P(","), T("Ident")]), ("an unquoted group", [P(","), T("Group")]),
+        ("the symbol +", [P("+")]), ("the symbol <=", [P("<", "Joint"), P("=")]), ("the symbol ...", [P(".", "Joint"), P(".", "Joint"), P(".")]),
+    ]
+    followers = [("nothing", []), ("an identifier", [T("Ident")]), ("a literal", [T("Literal")]), ("a group", [T("Group")]),
+                 ("`.` and an identifier", [P("."), T("Ident")]), ("`-` and an identifier", [P("-"), T("Ident")]),
+                 ("`-` and a literal", [P("-"), T("Literal")]), ("`+`", [P("+")]), ("`@` and an identifier", [P("@"), T("Ident")]),
+                 ("`:` and an identifier", [P(":"), T("Ident")]), ("an unquote", [P(","), T("Ident")])]
+    leaf = {"parser::string_literal"}
+    inline = lambda a, b: b.crate == mac.name and b.file.endswith("parser.rs") and b.path not in leaf
+    n = und = 0
+    for fname, form in forms:
+        for gname, rest in followers:
+            toks = form + rest
+
+            def hook(S, fn, bb, t, args, path, toks=toks):
+                p = t["callee"].get("path", "")
+                if p == "parser::Parser::new":
+                    if fn.path != pv.path or any(e[0] == "call" and "parser::Parser::new" in e[1] for e in path.events):
+                        return ("value", UNK)
+                    fs = [None, None]
+                    fs[vec_fields[0]] = Adt("sim::Vec", 0, [sim.Tup(list(toks))])
+                    fs[idx_fields[0]] = 0
+                    return ("value", Adt("parser::Parser", 0, fs))
+                if p in ("proc_macro2::Punct::as_char", "proc_macro2::Punct::spacing"):
+                    pvv = S._deref(args[0], path)
+                    if isinstance(pvv, Adt) and pvv.adt == "proc_macro2::Punct":
+                        return ("value", pvv.fields[0 if p.endswith("as_char") else 1])
+                    return ("value", UNK)
+                if p == "parser::Parser::parse" and fn.path == pv.path:
+                    first = not any(e[0] == "enter" and e[1] == pf.path and e[2] == pv.path for e in path.events)
+                    if first:
+                        return ("inline", pf)
+                    pvv = S._deref(args[0], path)
+                    at = pvv.fields[idx_fields[0]] if isinstance(pvv, Adt) and pvv.adt == "parser::Parser" else None
+                    return ("stop", "at=%s" % at)
+                if p in ("parser::parse_list", "parser::parse_vector"):
+                    return ("value", Adt("std::result::Result", 0, [sim.Opq("nested")]))   # the group's own tokens
+                if p in leaf:
+                    return ("fork", [Adt("std::result::Result", 0, [sim.Opq("text")]), Adt("std::result::Result", 1, [UNK])])
+                return None
+
+            S = sim.Sim([mac], hooks={"call": hook}, inline=inline, max_paths=4000, max_depth=7, max_visits=6)
+            outs = set()
+            try:
+                for pth in S.run(pv):
+                    if isinstance(pth.end, str) and pth.end.startswith("stop:at="):
+                        outs.add(pth.end[8:])
+                    elif pth.end == "return" and isinstance(pth.ret, Adt) and pth.ret.adt.endswith("Result"):
+                        # Ok: the loop ended, every token consumed; Err: this reading of the form was rejected
+                        outs.add("end" if pth.ret.variant == 0 else "rejected")
+                    else:
+                        outs.add("?" + str(pth.end))
+            except sim.Limit:
+                outs = {"?limit"}
+            n += 1
+            want = str(len(form)) if rest else "end"
+            what = "%s followed by %s" % (fname, gname)
+            got = outs - {"rejected"}
+            if got == {want}:
+                r.ok("%s: cursor behind the form" % what, pf)
+            elif not got or any(o.startswith("?") or o == "None" for o in got):
+                und += 1
+                r.note("undecided: %s gives %s" % (what, sorted(outs)))
+            else:
+                r.violation("lexpr_macros::" + pf.path, "extent:%s:%s" % (fname, gname),
+                            "sexp! reading %s leaves the cursor at token %s, the form has %d token(s): a neighbouring "
+                            "token is glued on or one of the form's tokens is left over, so the list gets different "
+                            "elements than the text parser's" % (what, "/".join(sorted(got)), len(form)), pf.loc())
+    r.floor("extent-cases", n)
+    r.floor("extent-decided", n - und)
+
+
 def run(ctx):
     db = ctx.facts(["poly"])
     lexpr = db.crate("lexpr")
@@ -305,6 +416,7 @@ def run(ctx):
         return
     spacing(ctx, mac, pf, pid, init, subs)
     list_dot(ctx, mac, lexpr)
+    form_extent(ctx, mac)
     r.floor("initial-chars", len(init))
     r.floor("subsequent-chars", len(subs))
     # text parser: which first bytes can yield a symbol (default options; ':' with prefix keywords off)
